@@ -22,7 +22,7 @@ func FormatPacketDsl(dsl string) (string, error) {
 	}
 	formattor := NewPacketDslFormattor(stream)
 	formattedDsl := tree.Accept(formattor).(string)
-	return strings.TrimSpace(formattedDsl), nil
+	return strings.TrimRight(formattedDsl, "\n"), nil
 }
 
 // NewPacketDslFormattor creates a new instance of PacketDslFormattor.
